@@ -837,6 +837,10 @@ def bulk_configs(rng, tier):
     add(P4, "rej", lambda cm: cm[0] * 1.4, tests=("grid",), name="rv2-rejection")
     add(P1, "ord-direct", lambda cm: cm[0] * 1.25, n=N // 2, tests=("grid",), name="rv2-ordered-direct")
     add(P4, "ord-rej", lambda cm: cm[0] * 1.6, n=N // 4, name="rv2-ordered-rejection")
+    # F144 regression (fixed by d1f394c05): ordered sampler over the direct sampler on SE(2) with a bound so tight that the
+    # full-space heuristic (incl. rotation) of most wrapped successes is not below it: a fresh batch whose best fails the bound
+    # must make the call return false (the old loop drew batches for ever -> this configuration would time out)
+    add(P3, "ord-direct", lambda cm: max(cm) * 1.03, n=max(N // 40, 500), batch=3, name="se2-ordered-fresh-batch")
     P5 = {"kind": "se3", "n": 3, "lo": -4.0, "hi": 4.0, "starts": [[-1.0, 0.0, 0.5]], "goals": [[1.0, 1.0, -0.5]]}
     add(P5, "direct", lambda cm: cm[0] * 1.3, tests=("quat",), name="se3-1x1")
     add(P5, "rej", lambda cm: cm[0] * 2.5, n=N // 2, tests=("quat",), name="se3-rejection")
